@@ -42,8 +42,8 @@ JUNK = {
     "junk-attr": b"csympy\nNoSuchNameC16\n.",
 }
 SEED_KINDS = {
-    "quick": ["empty", "torn:half", "torn:last", "junk", "junk-import"],
-    "thorough": ["empty", "torn:1", "torn:half", "torn:last", "junk", "junk-import", "junk-attr"],
+    "quick": ["empty", "torn:half", "junk-import"],
+    "thorough": ["empty", "torn:half", "torn:last", "junk-import", "junk-attr"],
 }
 DEPTH = {"quick": 3, "thorough": 4}
 BOUND = {"quick": 1, "thorough": 2}
@@ -87,10 +87,11 @@ class World:
                 msg = f"{self.names[k]} and {self.names[j]} unfold to the same expression"
                 raise HarnessError(msg)
         self.files = traced_files()
-        self.base = tempfile.mkdtemp(prefix="c16-")
+        self.base = tempfile.mkdtemp(prefix="c16-", dir=_scratch_root())
         self.entry: list[dict[str, bytes]] = []
         self.entry_names: set[str] = set()
-        self._unreadable: dict[bytes, bool] = {}
+        self._unreadable: dict[str, bool] = {}
+        self._srepr: dict[bytes, str] = {}
 
     # -- directories ------------------------------------------------------------
     def fresh(self, state: dict) -> str:
@@ -151,7 +152,7 @@ class World:
         return bool(set(self.entry[a]) & set(self.entry[b]))
 
     # -- canonical state --------------------------------------------------------
-    def canon(self, state: dict) -> tuple:
+    def canon(self, state: dict) -> str:
         # Equal listings have equal futures: perform_cached_doit reads nothing but the
         # expression, the hash-seed mode (fixed per worker) and the directory (names and
         # bytes); it keeps no state of its own between calls (the functools.cache in
@@ -160,11 +161,11 @@ class World:
         # files of a crashed writer, whatever naming scheme a repair uses: pid, random,
         # counter) are kept with their content digest but without their name, so that the
         # number of states does not depend on such a scheme.
-        items = [
+        items = sorted(
             (name if name in self.entry_names else "*", _digest(content))
             for name, content in state.items()
-        ]
-        return tuple(sorted(items))
+        )
+        return hashlib.blake2b(repr(items).encode(), digest_size=12).hexdigest()
 
     def unreadable(self, content: bytes) -> bool:
         """Harness-side witness predicate: not a complete loadable pickle."""
@@ -216,7 +217,7 @@ class World:
             }
         sp = self.sp
         try:
-            ok = bool(val == self.ref[k]) and sp.srepr(val) == self.ref_srepr[k]
+            ok = bool(val == self.ref[k]) and self.srepr(val) == self.ref_srepr[k]
         except Exception:  # noqa: BLE001
             ok = False
         if ok:
@@ -224,7 +225,7 @@ class World:
         j = self.partner.get(k)
         if val is None:
             symptom = "wrong:None"
-        elif j is not None and val == self.ref[j] and sp.srepr(val) == self.ref_srepr[j]:
+        elif j is not None and val == self.ref[j] and self.srepr(val) == self.ref_srepr[j]:
             symptom = "wrong:partner-unfolding"
         elif val == self.exprs[k]:
             symptom = "wrong:not-unfolded"
@@ -235,6 +236,17 @@ class World:
             "text": f"returned {str(val)[:90]} [{type(val).__name__}], expected {str(self.ref[k])[:90]}",
             "where": "return value",
         }
+
+    def srepr(self, val) -> str:
+        """srepr, memoised on the pickle of the value (identical bytes, identical object)."""
+        try:
+            key = pickle.dumps(val)
+        except Exception:  # noqa: BLE001
+            return self.sp.srepr(val)
+        hit = self._srepr.get(key)
+        if hit is None:
+            hit = self._srepr[key] = self.sp.srepr(val)
+        return hit
 
     def tags(self, k, symptom, start_state, earlier_exprs, crash_same_key, preempt_in_window):
         """Witness predicates over the failing INPUT (mode, history/schedule, directory)."""
@@ -272,6 +284,20 @@ class World:
         if kind == "partner":
             return self.entry[self.partner[k]][name]
         return JUNK[kind]
+
+
+def _scratch_root() -> str | None:
+    """Where the per-execution directories live: a memory-backed file system if there is
+    one (directory creation/removal on a journalled disk costs milliseconds and
+    serialises the workers), else the default of tempfile.  Both are real kernel file
+    systems; VERIF_C16_TMP overrides."""
+    override = os.environ.get("VERIF_C16_TMP")
+    if override:
+        return override
+    shm = "/dev/shm"
+    if os.path.isdir(shm) and os.access(shm, os.W_OK | os.X_OK):
+        return shm
+    return None
 
 
 def _digest(content: bytes) -> str:
@@ -391,10 +417,17 @@ def seq_expand(task):
     succ: dict = {}
 
     def add(op, new_state):
+        # successors travel back to the parent as deltas against `state` (None for a
+        # pre-seed: the parent recomputes the content from the operation)
         tally.c["seq_transitions"] += 1
         key = W.canon(new_state)
         if key not in succ:
-            succ[key] = (op, new_state)
+            if op[0] == "seed":
+                succ[key] = (op, None)
+            else:
+                changed = {n: c for n, c in new_state.items() if state.get(n) != c}
+                removed = [n for n in state if n not in new_state]
+                succ[key] = (op, (changed, removed))
 
     n = len(W.exprs)
     for k in range(n):
@@ -436,7 +469,21 @@ def seq_expand(task):
             "engine": "SEQ", "hash_seed": W.mode, "history": _fmt_history(history),
             "state": W.describe(state), "successor_states": len(succ),
         })
-    return tally.export(), [(key, op, st) for key, (op, st) in succ.items()]
+    return tally.export(), [(key, op, delta) for key, (op, delta) in succ.items()]
+
+
+def seq_apply_delta(state, op, delta):
+    new_state = dict(state)
+    if delta is None:
+        k = W.index[op[1]]
+        fname = sorted(W.entry[k])[op[2]]
+        new_state[fname] = W.seed_content(k, fname, op[3])
+    else:
+        changed, removed = delta
+        new_state.update(changed)
+        for n in removed:
+            del new_state[n]
+    return new_state
 
 
 def _reraise(exc):
@@ -458,11 +505,12 @@ def run_seq(pool, tally_total, summary):
         nxt = []
         for (st, hist, _), (res, succ) in zip(tasks, _imap(pool, seq_expand, tasks, chunk)):
             merge(tally_total, res)
-            for key, op, new_state in succ:
+            for key, op, delta in succ:
                 if key not in seen:
                     seen.add(key)
-                    nxt.append((new_state, [*hist, op]))
+                    nxt.append((seq_apply_delta(st, op, delta), [*hist, op]))
         per_depth.append(len(frontier))
+        _phase(f"seq depth {depth}: {len(frontier)} states expanded")
         if not closing:
             states += len(nxt)
         frontier = nxt
@@ -688,8 +736,11 @@ def crash_run_writer(k, start):
     return ex, snaps, final
 
 
+PREFIX_CHUNKS = 4
+
+
 def crash_task(task):
-    k, kind = task
+    k, kind, part = task  # part: "points" | prefix chunk number
     tally = Tally()
     start = start_state(kind, k, k)
     ex, snaps, final = crash_run_writer(k, start)
@@ -698,8 +749,9 @@ def crash_task(task):
         "engine": "crash", "mode": W.mode, "writer": W.names[k], "start": kind,
         "expressions": {n: s for n, s in zip(W.names, W.strs)},
     }
-    verdict = W.judge(k, ex.results[0])
-    tally.verdict(verdict)
+    verdict = W.judge(k, ex.results[0]) if part == "points" else None
+    if part == "points":
+        tally.verdict(verdict)
     if verdict is not None:
         tags = W.tags(k, verdict["symptom"], start, set(), False, False)
         case = dict(base_case, point=None, followups=[])
@@ -709,7 +761,7 @@ def crash_task(task):
         ))
     seqs = followup_sequences(k)
     window = 0
-    for p, snap in enumerate(snaps):
+    for p, snap in enumerate(snaps if part == "points" else []):
         tally.c["crash_points"] += 1
         if any(n in snap and W.unreadable(snap[n]) for n in W.entry[k]):
             window += 1
@@ -718,10 +770,16 @@ def crash_task(task):
         for seq in seqs:
             run_followups(tally, snap, seq, k, origin, dict(base_case, point=p), True)
     tally.c["crash_points_with_incomplete_entry_file"] += window
-    files = written_files(start, snaps, final)
+    # every byte prefix of every file the writer produced
+    # (spread over PREFIX_CHUNKS pool tasks: prefix number i goes to chunk i mod chunks)
+    files = written_files(start, snaps, final) if part != "points" else []
     n_prefixes = 0
+    running = -1
     for fi, (name, content) in enumerate(files):
         for n in range(len(content) + 1):
+            running += 1
+            if running % PREFIX_CHUNKS != part:
+                continue
             n_prefixes += 1
             tally.c["byte_prefixes"] += 1
             state = dict(start)
@@ -731,23 +789,32 @@ def crash_task(task):
             for seq in seqs:
                 run_followups(tally, state, seq, k, origin,
                               dict(base_case, prefix=[fi, n]), False)
-    if kind == "empty":
+    if part == 0:
         tally.samples.append({
             "engine": "CRASH", "hash_seed": W.mode, "writer": W.names[k], "directory": kind,
             "scheduling_points": len(snaps),
-            "points_with_incomplete_entry_file": window,
             "files_written": [{"file": n if n in W.entry_names else "<other>", "bytes": len(c)}
                               for n, c in files],
-            "byte_prefixes": n_prefixes, "followups": [[W.names[x] for x in s] for s in seqs],
+            "byte_prefixes_enumerated": sum(len(c) + 1 for _, c in files),
+            "followups": [[W.names[x] for x in s] for s in seqs],
         })
     out = tally.export()
-    out["config"] = {"writer": W.names[k], "start": kind, "points": len(snaps),
-                     "points_with_incomplete_entry_file": window, "byte_prefixes": n_prefixes}
+    if part == "points":
+        out["config"] = {"writer": W.names[k], "start": kind, "points": len(snaps),
+                         "points_with_incomplete_entry_file": window}
+    else:
+        out["config"] = {"writer": W.names[k], "start": kind, "prefix_chunk": part,
+                         "byte_prefixes": n_prefixes}
     return out
 
 
 def crash_tasks():
-    return [(k, kind) for k in range(len(W.exprs)) for kind in START_KINDS]
+    """Byte prefixes (heavy, empty start only: what is written does not depend on the
+    start directory) first, then the crash points of every (writer, start directory)."""
+    n = len(W.exprs)
+    tasks = [(k, "empty", c) for k in range(n) for c in range(PREFIX_CHUNKS)]
+    tasks += [(k, kind, "points") for k in range(n) for kind in START_KINDS]
+    return tasks
 
 
 # ====================================================================== replay
@@ -865,6 +932,18 @@ def _consume(it):
         yield payload
 
 
+_T0 = [None]
+
+
+def _phase(what: str) -> None:
+    if os.environ.get("VERIF_PROFILE"):
+        import time  # noqa: PLC0415
+
+        now = time.time()
+        _T0[0] = _T0[0] or now
+        sys.stderr.write(f"[c16 {W.mode}] +{now - _T0[0]:.1f}s {what}\n")
+
+
 def merge(total: Tally, res: dict) -> None:
     for key, val in res["c"].items():
         total.c[key] += val
@@ -880,6 +959,7 @@ def main_job(job: dict) -> dict:
     core.ensure_repo_import()
     W = World(job["mode"], job["tier"], int(job["seed"]))
     try:
+        _phase("start")
         W.learn()
         if job.get("replay") is not None:
             viols = replay(job["replay"])
@@ -905,10 +985,12 @@ def main_job(job: dict) -> dict:
             # longest tasks first for the pool, results consumed in task order
             st = sched_tasks()
             ct = crash_tasks()
-            sched_it = _submit(pool, sched_config, st)
             crash_it = _submit(pool, crash_task, ct)
-            sched_res = list(_consume(sched_it))
+            sched_it = _submit(pool, sched_config, st)
             crash_res = list(_consume(crash_it))
+            _phase("crash done")
+            sched_res = list(_consume(sched_it))
+            _phase("sched done")
         finally:
             if pool is not None:
                 pool.close()
